@@ -139,3 +139,4 @@ def _where(a, b, verbose=False, path=""):
 
 def shrink(case):
     yield from common.shrink_tasks(case, {"main"})
+    yield from common.shrink_buffers(case, ("main",))
